@@ -2,7 +2,7 @@
    and BaseFacts.v.  Strings and byte arrays are modelled as the list of their bytes (embedded NULs
    included; the terminating NUL of a string is implicit), so create/copy are the identity on the
    content: that part of the property is tied by the correspondence run (strrt/bart observations). *)
-From Sbdf Require Import Imp ImpCall Gen.Prog ImpFacts ImpFacts7 ImpFactsFrame ImpFactsCmp ImpFactsHeap.
+From Sbdf Require Import Imp ImpCall Gen.Prog ImpFacts ImpFacts7 ImpFactsFrame ImpFactsCmp ImpFactsHeap ImpFactsCells ImpFactsEq.
 From Coq Require Import List.
 From Sbdf Require Import Obj BaseFacts VaFacts EqFacts.
 
@@ -117,3 +117,46 @@ Theorem C15_source_copy_array : forall sx pre payload post k, zlen payload <= in
     inb fin = (if k =? 0 then m else ba_mem m payload []).
 Proof. exact copy_array_source. Qed.
 Print Assumptions C15_source_copy_array.
+
+(* ---- sbdf_obj_eq from the source (src/object.c; structs in the cell heap of Imp.v, elements in the byte
+   memory; its helpers sbdf_str_cmp / sbdf_ba_memcmp re-proved for elements stored anywhere in the memory).
+   Two distinct objects of the same type and count:
+   - string / binary objects (elems_at: cell j of the pointer array points at the stored j-th element,
+     embedded NULs included): the result is 1 exactly when every element has the same length and the
+     same bytes (all_eq la lb = true <-> la = lb), else 0 - decided element by element, in order;
+   - every other type: 1 exactly when the count * size bytes of the two data blocks coincide.
+   Neither the byte memory nor any block of the cell heap is changed. *)
+Theorem C15_source_obj_eq_arrays : forall k sx m h lo ro ldb rdb lcells rcells ty la lb ldata rdata, lo <> ro ->
+  obj_block h lo ty (zlen la) ldata -> as_ptr ldata = VCell ldb 0 -> nth_error h ldb = Some (Some lcells) ->
+  obj_block h ro ty (zlen la) rdata -> as_ptr rdata = VCell rdb 0 -> nth_error h rdb = Some (Some rcells) ->
+  elems_at m (ty =? 10) lcells la -> elems_at m (ty =? 10) rcells lb -> zlen la = zlen lb -> zlen la < int_max ->
+  Leaf.gen_sbdf_ti_is_arr ty <> 0 -> int_min <= ty <= int_max ->
+  exists f0, forall f, (f0 <= f)%nat -> exists fin,
+    callC prog_env f prog_sbdf_obj_eq [VCell lo 0; VCell ro 0] m k sx h = OReturn (VInt (b2z (all_eq la lb))) fin /\
+    inb fin = m /\ Imp.lookup cells_var (vars fin) = Some (VHeap h).
+Proof. exact obj_eq_arrays_source. Qed.
+Print Assumptions C15_source_obj_eq_arrays.
+
+Theorem C15_source_all_eq : forall la lb, all_eq la lb = true <-> la = lb.
+Proof. exact all_eq_spec. Qed.
+Print Assumptions C15_source_all_eq.
+
+Theorem C15_source_obj_eq_fixed : forall k sx m h lo ro ty n pa pb, lo <> ro ->
+  obj_block h lo ty n (VPtr RIn pa) -> obj_block h ro ty n (VPtr RIn pb) ->
+  Leaf.gen_sbdf_ti_is_arr ty = 0 -> let sz := Leaf.gen_sbdf_get_unpacked_size ty in
+  0 <= sz -> 0 <= n -> sz * n <= int_max -> 0 <= pa -> pa + sz * n <= zlen m -> 0 <= pb -> pb + sz * n <= zlen m -> int_min <= sz <= int_max ->
+  exists f0, forall f, (f0 <= f)%nat -> exists fin,
+    callC prog_env f prog_sbdf_obj_eq [VCell lo 0; VCell ro 0] m k sx h =
+      OReturn (VInt (b2z (ImpFactsCells.list_eqb (firstn (Z.to_nat (sz * n)) (skipn (Z.to_nat pa) m)) (firstn (Z.to_nat (sz * n)) (skipn (Z.to_nat pb) m))))) fin /\
+    inb fin = m /\ Imp.lookup cells_var (vars fin) = Some (VHeap h).
+Proof. exact obj_eq_fixed_source. Qed.
+Print Assumptions C15_source_obj_eq_fixed.
+
+Example C15_source_obj_eq_runs :
+  let mo := [1;0;0;0; 2;0;0;0;   1;0;0;0; 2;0;0;0;   3;0;0;0; 97;98;0;  2;0;0;0; 99;0 ; 3;0;0;0; 97;98;0;  2;0;0;0; 100;0] in
+  let ho := [Some [VInt 2; VInt 2; VPtr RIn 0]; Some [VInt 2; VInt 2; VPtr RIn 8];
+             Some [VInt 10; VInt 2; VCell 3 0]; Some [VPtr RIn 20; VPtr RIn 27]; Some [VInt 10; VInt 2; VCell 5 0]; Some [VPtr RIn 33; VPtr RIn 40]] in
+  (match callC prog_env 300 prog_sbdf_obj_eq [VCell 0 0; VCell 1 0] mo (-1) [] ho with OReturn v _ => Some v | _ => None end) = Some (VInt 1) /\
+  (match callC prog_env 300 prog_sbdf_obj_eq [VCell 2 0; VCell 4 0] mo (-1) [] ho with OReturn v _ => Some v | _ => None end) = Some (VInt 0) /\
+  (match callC prog_env 300 prog_sbdf_obj_eq [VCell 2 0; VCell 2 0] mo (-1) [] ho with OReturn v _ => Some v | _ => None end) = Some (VInt 1).
+Proof. repeat split; vm_compute; reflexivity. Qed.
